@@ -205,10 +205,14 @@ async fn run_plan(plan: &Plan) -> Result<(Vec<(String, String)>, usize), String>
 
 pub fn run(seed: u64, tier: &str, shard: usize, nshards: usize) -> ShardResult {
     let mut res = ShardResult::new("c15", seed);
-    let rt = tokio::runtime::Builder::new_multi_thread().worker_threads(3).enable_all().build().unwrap();
+    let mut rt = tokio::runtime::Builder::new_multi_thread().worker_threads(3).enable_all().build().unwrap();
     let total = if tier == "thorough" { 6400 } else { 1600 };
     let mut rng = Rng::derive(seed, 0xC15_000 + shard as u64);
     for i in 0..total / nshards.max(1) {
+        // a closed HybridCache keeps its partition files open for as long as its runtime lives: recycle the runtime regularly
+        if i % 25 == 24 {
+            std::mem::replace(&mut rt, tokio::runtime::Builder::new_multi_thread().worker_threads(3).enable_all().build().unwrap()).shutdown_background();
+        }
         let mut cfg = HCfg::small(AlgoCfg::default_for(ALGOS[i % 5]));
         cfg.policy = if rng.chance(1, 2) { Policy::WriteOnEviction } else { Policy::WriteOnInsertion };
         cfg.flush_on_close = rng.chance(3, 4);
